@@ -31,6 +31,18 @@ type fileRule struct {
 
 var simnetImp = `simnet "verif.local/sim/simnet"`
 var simsyncImp = `simsync "verif.local/sim/simsync"`
+var simkernImp = `simkern "verif.local/sim/simkern"`
+
+// the system clock driver's kernel interface
+var kernSubsts = []subst{
+	{"unix", "ClockGettime", "simkern", "ClockGettime"},
+	{"unix", "ClockAdjtime", "simkern", "ClockAdjtime"},
+	{"unix", "TimerfdCreate", "simkern", "TimerfdCreate"},
+	{"unix", "TimerfdSettime", "simkern", "TimerfdSettime"},
+	{"unix", "Poll", "simkern", "Poll"},
+	{"unix", "Close", "simkern", "Close"},
+	{"sync", "Mutex", "simsync", "Mutex"},
+}
 
 var netSubsts = []subst{
 	{"net", "UDPConn", "simnet", "UDPConn"},
@@ -61,6 +73,7 @@ var rules = []fileRule{
 	{glob: "net/scion/quic.go", substs: netSubsts},
 	{glob: "net/ntske/ntske_ip.go", substs: netSubsts},
 	{glob: "core/sync/sync.go", substs: []subst{{"context", "WithTimeout", "simsync", "WithTimeout"}}},
+	{glob: "driver/clocks/sysclk_linux.go", substs: kernSubsts, yieldRecv: []string{"SystemClock"}},
 	{glob: "net/ntske/provider.go",
 		substs:    []subst{{"sync", "Mutex", "simsync", "Mutex"}},
 		yieldRecv: []string{"Provider"}},
@@ -147,7 +160,7 @@ func main() {
 		}
 		off := func(p token.Pos) int { return fset.Position(p).Offset }
 		var sp []splice
-		needSimnet, needSimsync := false, false
+		needSimnet, needSimsync, needSimkern := false, false, false
 		// import names in this file
 		impName := map[string]*ast.ImportSpec{}
 		for _, is := range f.Imports {
@@ -176,9 +189,12 @@ func main() {
 				if id.Name == s.pkg && se.Sel.Name == s.name {
 					sp = append(sp, splice{off(id.Pos()), off(se.Sel.End()), s.newPkg + "." + s.newName, 0})
 					replaced[id.Name]++
-					if s.newPkg == "simnet" {
+					switch s.newPkg {
+					case "simnet":
 						needSimnet = true
-					} else {
+					case "simkern":
+						needSimkern = true
+					default:
 						needSimsync = true
 					}
 					return false
@@ -346,6 +362,9 @@ func main() {
 		}
 		if needSimsync {
 			add = append(add, "import "+simsyncImp)
+		}
+		if needSimkern {
+			add = append(add, "import "+simkernImp)
 		}
 		if len(add) > 0 {
 			e := off(f.Name.End())
